@@ -73,6 +73,52 @@ def std_candidates(case):
                     break
 
 
+@st.composite
+def near_twin(draw, g):
+    """A copy of g that differs from it in exactly one label (operator, bound, constant, variable): two nodes whose
+    printed forms are almost the same.  Returns None if nothing can be changed."""
+    g = from_json(g)
+    nodes = list(F.subterms(g))
+    idx = draw(st.integers(0, len(nodes) - 1))
+    for off in range(len(nodes)):
+        s = nodes[(idx + off) % len(nodes)]
+        k = s[0]
+        t = None
+        if k == 'pred':
+            t = (k, draw(st.sampled_from([o for o in F.PREDS if o != s[1]]))) + s[2:]
+        elif k == 'const':
+            t = ('const', draw(st.sampled_from([c for c in (0.0, 1.0, 2.0, 0.5, 3.0) if c != s[1]])))
+        elif k == 'tun':
+            alt = {'once': 'historically', 'historically': 'once', 'eventually': 'always', 'always': 'eventually'}
+            choice = draw(st.integers(0, 2))
+            if choice == 0:
+                t = (k, alt[s[1]]) + s[2:]
+            elif choice == 1:
+                t = (k, s[1], s[2], s[3] + 1, s[4])
+            else:
+                t = (k, s[1], max(0, s[2] - 1), s[3], s[4]) if s[2] > 0 else (k, s[1], s[2] + (1 if s[2] < s[3] else 0), s[3] + (0 if s[2] < s[3] else 1), s[4])
+        elif k == 'tbin' and s[1] in ('since', 'until'):
+            t = (k, s[1], s[2], s[3] + 1) + s[4:]
+        elif k == 'un':
+            alt = {'once': 'historically', 'historically': 'once', 'eventually': 'always', 'always': 'eventually', 'prev': 's_prev',
+                   's_prev': 'prev', 'next': 's_next', 's_next': 'next', 'rise': 'fall', 'fall': 'rise', 'abs': 'neg', 'neg': 'abs'}
+            if s[1] in alt:
+                t = (k, alt[s[1]], s[2])
+        elif k == 'bin':
+            alt = {'and': 'or', 'or': 'and', 'implies': 'or', 'iff': 'xor', 'xor': 'iff', '+': '-', '-': '+', '*': '+'}
+            if s[1] in alt:
+                t = (k, alt[s[1]], s[2], s[3])
+        if t is not None and t != s:
+            def repl(h, done=[False]):
+                if h is s and not done[0]:
+                    done[0] = True
+                    return t
+                kids = F.children(h)
+                return F.rebuild(h, [repl(c) for c in kids]) if kids else h
+            return repl(g)
+    return None
+
+
 def fmt_vals(xs):
     return '[' + ', '.join('%g' % x if isinstance(x, (int, float)) else str(x) for x in xs) + ']'
 
